@@ -48,7 +48,7 @@ pub struct ServerWorld {
     pub uploaded: Option<(String, Vec<u8>)>,
 }
 
-async fn sign_token(signer: &DeviceSigner, bytes: &[u8]) -> Result<String> {
+pub async fn sign_token(signer: &DeviceSigner, bytes: &[u8]) -> Result<String> {
     let sig = signer.signing_key().sign(bytes).await?;
     let sig: BinaryEd25519Signature = sig.into();
     Ok(bs58::encode(sos_core::encode(&sig).await?).into_string())
